@@ -79,3 +79,27 @@ Definition run_encode_sparse (x : sx) : sx :=
   let out := ModelEncodeSparse.flat1 (as_z (nth_sx 0 x)) (map item (as_l (nth_sx 1 x))) in
   L_ (map (fun kv => L_ [Z_ (fst (fst kv)); match snd (fst kv) with Some j => of_nat j | None => Z_ (-1) end;
                          match snd kv with ModelEncodeSparse.SNum z => Z_ z | ModelEncodeSparse.SCat _ _ => Z_ (-99) end]) out).
+
+(* 'string' / 'onehot_tuple' over nested dense rows.  request: (form value) with form 0 = string, 1 = tuple and values (0 z) | (1 i n) | (2 (values...));
+   answer: tagged values (0 z) | (2 (values...)) | (3 i) | (4 (z...)) *)
+From Coba Require C13.ModelEncodeInPlace.
+Fixpoint ival_of (fuel : nat) (x : sx) : ModelEncodeInPlace.ival :=
+  match fuel with
+  | O => ModelEncodeInPlace.INum 0
+  | S f => match as_z (nth_sx 0 x) with
+           | 0 => ModelEncodeInPlace.INum (as_z (nth_sx 1 x))
+           | 1 => ModelEncodeInPlace.ICat (as_nat (nth_sx 1 x)) (as_nat (nth_sx 2 x))
+           | _ => ModelEncodeInPlace.IList (map (ival_of f) (as_l (nth_sx 1 x)))
+           end
+  end.
+Fixpoint sx_of_ival (v : ModelEncodeInPlace.ival) : sx :=
+  match v with
+  | ModelEncodeInPlace.INum z => L_ [Z_ 0; Z_ z]
+  | ModelEncodeInPlace.ICat i n => L_ [Z_ 1; of_nat i; of_nat n]
+  | ModelEncodeInPlace.IList l => L_ [Z_ 2; L_ (map sx_of_ival l)]
+  | ModelEncodeInPlace.IStr i => L_ [Z_ 3; of_nat i]
+  | ModelEncodeInPlace.ITup h => L_ [Z_ 4; of_zs h]
+  end.
+Definition run_encode_inplace (x : sx) : sx :=
+  let f := match as_z (nth_sx 0 x) with 0 => ModelEncodeInPlace.FString | _ => ModelEncodeInPlace.FTuple end in
+  sx_of_ival (ModelEncodeInPlace.iencode f (ival_of 12 (nth_sx 1 x))).
